@@ -21,35 +21,12 @@
 (* order, every multi-word line fits, the break discipline holds.          *)
 (* FormatCases.tla compares the REAL FormatText with Run.                  *)
 (***************************************************************************)
-EXTENDS Naturals, Sequences, FiniteSets, TLC
+EXTENDS Naturals, Sequences, FiniteSets, TLC, FormatStep   \* S0, AutoCode, StepTok, Finish
 
 BS == "\\"
 Code(c) == BS \o c                    \* "\n" as the two characters backslash, n
 
 Params == [max : Nat, ov : Nat, nl : Nat, sp : Nat]
-
-S0 == [cur |-> <<>>, w |-> 0, ln |-> 0, out |-> <<>>]
-
-AutoCode(P, ln) == IF ln >= P.nl - 1 THEN Code("l") ELSE Code("n")
-
-(* one token *)
-StepTok(P, T, i, s) ==
-    LET t == T[i] IN
-    IF t.k = "b"
-    THEN LET e == IF t.c = Code("N") THEN AutoCode(P, s.ln) ELSE t.c IN
-         [cur |-> <<>>, w |-> 0,
-          ln  |-> IF t.c = Code("p") THEN 0 ELSE s.ln + 1,
-          out |-> Append(s.out, [ws |-> s.cur, end |-> e,
-                                 how |-> IF t.c = Code("N") THEN "auto" ELSE "explicit"])]
-    ELSE LET add    == IF s.cur = <<>> THEN t.w ELSE s.w + P.sp + t.w
-             prompt == i < Len(T) /\ (s.ln >= P.nl - 1 \/ (T[i + 1].k = "b" /\ T[i + 1].c = Code("p")))
-             need   == add + (IF prompt THEN P.ov ELSE 0)
-         IN IF need > P.max /\ s.cur # <<>>
-            THEN [cur |-> <<i>>, w |-> t.w, ln |-> s.ln + 1,                       \* Wrap
-                  out |-> Append(s.out, [ws |-> s.cur, end |-> AutoCode(P, s.ln), how |-> "wrap"])]
-            ELSE [s EXCEPT !.cur = Append(s.cur, i), !.w = add]                     \* Place
-
-Finish(s) == IF s.cur = <<>> THEN s.out ELSE Append(s.out, [ws |-> s.cur, end |-> "", how |-> "last"])
 
 RECURSIVE RunFrom(_, _, _, _)
 RunFrom(P, T, i, s) == IF i > Len(T) THEN Finish(s) ELSE RunFrom(P, T, i + 1, StepTok(P, T, i, s))
